@@ -5,6 +5,7 @@ import gens
 from framework import Case
 
 PROP = "C06"
+GENERATED = ['ParserTables']  # generated files this check's tie depends on
 LEAN_MODULES = ["Properties.C06"]
 NEEDS_DTYPES = True
 RULE = (
